@@ -794,7 +794,7 @@ def _r6_identity(ctx, repo, A):
               and any(dotted(t) == "self._pid_reused" for t in st.targets)]
     good = False
     for st in stores:
-        if _is_identity_compare(st.value):
+        if _is_identity_compare(deref(ir.node, st.value)):
             good = True
     if good:
         ctx.ok("C01.R6", "is_running-compare", sample={"store": norm_stmt(stores[0])})
